@@ -2107,6 +2107,9 @@ func (f *formatter) writeInlineComments(comments ast.Comments) {
 		text := comments.Index(i).RawText()
 		if strings.HasPrefix(text, "//") {
 			text = strings.TrimSpace(strings.TrimPrefix(text, "//"))
+			// The text of a standard comment may contain the terminator of
+			// a C-style comment; it must not end the C-style comment early.
+			text = strings.ReplaceAll(text, "*/", "* /")
 			text = "/* " + text + " */"
 		} else {
 			// no multi-line comments
